@@ -18,7 +18,6 @@ import (
 	"math/big"
 	"net"
 	"net/url"
-	"os"
 	"sort"
 	"strconv"
 	"strings"
@@ -700,6 +699,31 @@ func (c *c15Ctx) checkVerbatim(cert *x509.Certificate) (fs []c15Finding) {
 			add("C15-san-not-requested", "sign-verbatim: IP SAN %s is not in the CSR", ip)
 		}
 	}
+	uriSet := map[string]bool{}
+	for _, u := range q.CSR.URIs {
+		uriSet[u] = true
+		if p, err := url.Parse(u); err == nil {
+			uriSet[p.String()] = true
+		}
+	}
+	for _, u := range cert.URIs {
+		if !uriSet[u.String()] {
+			add("C15-san-not-requested", "sign-verbatim: URI SAN %s is not in the CSR", u)
+		}
+	}
+	if others, _, err := refOtherNames(cert); err == nil {
+		want := map[string]bool{}
+		for _, o := range append(append([]string{}, q.CSR.Others...), q.Others...) {
+			if oid, v, ok := refSplitOther(o); ok {
+				want[oid+"\x00"+v] = true
+			}
+		}
+		for _, o := range others {
+			if !want[o.OID+"\x00"+o.Value] {
+				add("C15-san-not-requested", "sign-verbatim: otherName %s=%q is not in the CSR", o.OID, o.Value)
+			}
+		}
+	}
 	kt, kb := refKeyInfo(cert.PublicKey)
 	if kt == "rsa" && kb < 2048 || kt == "ec" && kb < 224 || kt == "?" {
 		add("C15-key-not-permitted", "sign-verbatim signed key %s/%d below the documented minimum", kt, kb)
@@ -1052,9 +1076,6 @@ func c15RunOne(res *kit.Result, m *c15Mount, r *c15Role, q *c15Req, caseID strin
 			res.Nontrivial("refused-issuer|" + sv + "|" + q.shape())
 		} else {
 			res.Count("refused_reference_would_admit", 1)
-			if os.Getenv("C15_DEBUG") != "" {
-				fmt.Printf("DBG %s %s %s | %.90s\n", caseID, q.Intent, q.Kind, out.Err)
-			}
 			if res.Get("refused_reference_would_admit") <= 6 {
 				res.Note("refused although the reference admits it (allowed; diagnostic only) case %s %s: %.160s", caseID, path, out.Err)
 			}
@@ -1092,6 +1113,22 @@ func c15RunOne(res *kit.Result, m *c15Mount, r *c15Role, q *c15Req, caseID strin
 			// certificate came back; the content checks above decide whether
 			// anything was widened. Count silently-dropped elements.
 			res.Count("issued_with_inadmissible_element_dropped_or_flagged", 1)
+		}
+		for _, n := range append(append([]string{cert.Subject.CommonName}, cert.DNSNames...), cert.EmailAddresses...) {
+			switch {
+			case n == "":
+			case strings.Contains(n, "@"):
+				res.Count("issued_name_form:email", 1)
+			case strings.Contains(n, "*"):
+				res.Count("issued_name_form:wildcard", 1)
+			case !c15IsASCII(n) || strings.Contains(strings.ToLower(n), "xn--"):
+				res.Count("issued_name_form:idn", 1)
+				if c15ReqHasUnicode(q) {
+					res.Count("issued_from_unicode_request", 1)
+				}
+			default:
+				res.Count("issued_name_form:plain", 1)
+			}
 		}
 		var vias []string
 		for _, n := range append(append([]string{cert.Subject.CommonName}, cert.DNSNames...), cert.EmailAddresses...) {
@@ -1138,6 +1175,19 @@ func c15RunOne(res *kit.Result, m *c15Mount, r *c15Role, q *c15Req, caseID strin
 	for _, cls := range classes {
 		res.Violate(cls, caseID, fmt.Sprintf("%s %s: %s", caseID, path, byClass[cls][0]), w)
 	}
+}
+
+func c15ReqHasUnicode(q *c15Req) bool {
+	names := append([]string{q.CN}, q.AltNames...)
+	if q.CSR != nil {
+		names = append(names, q.CSR.CN)
+	}
+	for _, n := range names {
+		if !c15IsASCII(n) {
+			return true
+		}
+	}
+	return false
 }
 
 func data2JSON(d map[string]any) map[string]any {
@@ -1217,7 +1267,7 @@ func TestVerif_C15_Issuance(t *testing.T) {
 		t.Fatalf("key pool: %v", err)
 	}
 	shard, nshards := kit.Shard()
-	mounts := kit.N(4, 320)
+	mounts := kit.N(8, 320)
 	reqsPerRole := kit.N(20, 24)
 	extraRoles := kit.N(10, 14)
 	onlyM, onlyR, onlyQ, haveOnly := -1, -1, -1, false
@@ -1228,6 +1278,9 @@ func TestVerif_C15_Issuance(t *testing.T) {
 		} else if m, r, q, ok := c15ParseCase(oc); ok {
 			onlyM, onlyR, onlyQ, haveOnly = m, r, q, true
 		}
+	}
+	if kit.OnlyCase() != "" && !haveOnly {
+		return // a replay id of another C15 monitor
 	}
 	fs := c15Factors()
 	for mi := 0; mi < mounts; mi++ {
@@ -1316,4 +1369,8 @@ func TestVerif_C15_Issuance(t *testing.T) {
 	res.Require("uri_san_checked", 10*q)
 	res.Require("other_san_checked", 5*q)
 	res.Require("serials_checked", 300*q)
+	res.Require("issued_name_form:email", 30*q)
+	res.Require("issued_name_form:wildcard", 30*q)
+	res.Require("issued_name_form:idn", 10*q)
+	res.Require("issued_from_unicode_request", 5*q)
 }
